@@ -221,7 +221,7 @@ def run_unionfind(generic: bool, cfg: Stream, h: Stream, n: int, tr: list[str] |
     calls = 0
     for step in h.iter_steps(n):
         nn = len(m.label)
-        op = h.weighted((2, 4, 4, 4, 3, 1, 1, 1))
+        op = h.weighted((2, 4, 4, 4, 3, 1, 1, 1, 1 if generic else 0))
         if op == 0:
             if nn >= 9:
                 continue
@@ -322,6 +322,18 @@ def run_unionfind(generic: bool, cfg: Stream, h: Stream, n: int, tr: list[str] |
             if r != ("ok", nn):
                 raise _Fail("unionfind-model", f"{pfx}.value_count", f"count -> {r}, expected {nn}")
             st[f"call.{pfx}.count"] += 1
+        elif op == 8:
+            # str(): the partition written as {representative: [members in insertion order]}
+            r = _call(str, d)
+            groups: dict[Any, list[Any]] = {}
+            for i in range(nn):
+                root = check_find(i, f"{pfx}.find")
+                groups.setdefault(vals[root], []).append(vals[i])
+            if tr is not None:
+                tr.append(f"str() -> {r[1] if r[0] == 'ok' else r}")
+            if r != ("ok", str(groups)):
+                raise _Fail("unionfind-model", f"{pfx}.__str__", f"str() -> {r}, the partition is {groups}")
+            st[f"call.{pfx}.__str__"] += 1
         else:
             # full sweep: every member reports the same, member, representative
             for i in range(nn):
@@ -374,17 +386,25 @@ def run_scoped(cfg: Stream, h: Stream, n: int, tr: list[str] | None, st: Counter
 
     calls = 0
     for step in h.iter_steps(n):
-        op = h.weighted((2, 5, 3, 3, 3, 3))
+        op = h.weighted((2, 5, 3, 3, 3, 3, 1))
         si = h.choice(len(scopes))
         k = keys[h.choice(nkeys)]
         d = scopes[si]
         if op == 0:
             if len(scopes) >= 6:
                 continue
-            scopes.append(ScopedDict(d))
-            model.append((si, {}))
-            if tr is not None:
-                tr.append(f"s{len(scopes) - 1} = ScopedDict(s{si})")
+            if h.flag(1, 3):
+                # a scope created around initial local bindings
+                init = {keys[h.choice(nkeys)]: _VALUES[h.choice(len(_VALUES))] for _ in range(h.choice(3))}
+                scopes.append(ScopedDict(d, name=f"s{len(scopes)}", local_scope=dict(init)))
+                model.append((si, dict(init)))
+                if tr is not None:
+                    tr.append(f"s{len(scopes) - 1} = ScopedDict(s{si}, local_scope={init!r})")
+            else:
+                scopes.append(ScopedDict(d))
+                model.append((si, {}))
+                if tr is not None:
+                    tr.append(f"s{len(scopes) - 1} = ScopedDict(s{si})")
             st["call.ScopedDict.__init__"] += 1
         elif op == 1:
             v = _VALUES[h.choice(len(_VALUES))]
@@ -397,6 +417,13 @@ def run_scoped(cfg: Stream, h: Stream, n: int, tr: list[str] | None, st: Counter
             st["call.ScopedDict.__setitem__"] += 1
             if shadowed_falsy(si, k):
                 st["reach.scoped.falsy_value_shadows_outer"] += 1
+        elif op == 6:
+            r = _call(lambda: dict(d.local_scope))
+            if tr is not None:
+                tr.append(f"dict(s{si}.local_scope) -> {r}")
+            if r[0] != "ok" or r[1] != model[si][1] or any(r[1][kk] is not vv and r[1][kk] != vv for kk, vv in model[si][1].items()) or d.parent is not (scopes[model[si][0]] if model[si][0] is not None else None):
+                raise _Fail("scoped-model", "ScopedDict.local_scope", f"s{si}.local_scope / parent -> {r}, the scope holds {model[si][1]!r}")
+            st["call.ScopedDict.local_scope"] += 1
         else:
             exp = resolve(si, k)
             if op == 2:
@@ -443,7 +470,7 @@ class DsEngine(Engine):
     engine_name = "dssim"
     level = "exploration"
     tiers = {
-        "quick": {"runs": 1_500_000, "wall_cap_s": 240, "samples": 4},
+        "quick": {"runs": 600_000, "wall_cap_s": 240, "samples": 4},
         "thorough": {"runs": 40_000_000, "wall_cap_s": 1700, "samples": 4},
     }
     shrink_order = ("hist", "cfg")
